@@ -18,13 +18,17 @@ RULE = ("training/target journal pairs: training empty, without transactions, un
         "is re-parsed with the Go parser.  Model: the implementation's choices are handed to the model as the choice "
         "function, the bytes must be equal and every choice must be one of the model's candidates.  Spec on the Go "
         "output: infer_ok_b (only placeholder sides differ; each is a training account different from the other side of "
-        "its booking, or unchanged if there is none), gaps equal, output parses, the 10 runs agree.  Non-trivial: the "
+        "its booking, or unchanged if there is none), gaps equal, output parses, the 10 runs agree, and every choice of "
+        "the binary is the choice of the model of the choice (Model/BayesScore.v, extracted, run with IEEE doubles and a "
+        "transcription of Go's math.Log for amd64: first maximum of the scores over the sorted candidates).  Non-trivial: the "
         "target has at least one placeholder occurrence; distinct by input.")
 TRUSTED_BASE = [
     "Coq 8.16.1 kernel",
     "extraction + OCaml drivers drv_c07/c08/c15.ml (hex, reading the Go tree back, reading the choices off the output)",
     "harness c15.go (generator, subprocess runner, 10 runs), c07.go/c08.go (Go parser, tree rendering)",
-    "float64 arithmetic (math.Log, +, >) is abstract in the model of the choice: which candidate wins is taken from the implementation",
+    "float64 arithmetic is abstract in the Coq model of the choice; for the comparison of the binary's choices with it the driver "
+    "drv_c15.ml instantiates it with OCaml doubles, a hand transcription of Go's math.Log (log_amd64.s) and of strings.Fields / "
+    "strings.ToLower for ASCII and Latin-1 (all the generator uses)",
     "training files are read without includes in generated cases",
 ]
 ASSUMPTIONS = ["-i (in place) is not exercised: the written bytes are the same FormatFile output (C08/C18)",
@@ -105,7 +109,8 @@ LEVEL_TEXT = ("see Properties/C15.v (26 theorems, closed under the global contex
               "C15_infer_correct (the whole property for the command with its real choice). Code before e8bd689: "
               "C15_no_candidate_unchanged_refuted, C15_parses_refuted, C15_differs_refuted (findings/C15-infer.md, F10).")
 LEVEL_NOTE = ("Trusted: kernel, extraction, drivers, harness. The float64 operations (math.Log, +, >) and strings.Fields / "
-              "strings.ToLower are abstract in the model of the choice: the theorems hold for any such functions, so WHICH "
-              "candidate has the larger score is not compared with the binary (the check hands the binary's choices to the "
-              "model and requires each to be a candidate); that the Go runtime computes the same float64 values on every "
-              "run is sampled with 10 runs per case. Includes in the training file are not modelled.")
+              "strings.ToLower are abstract in the model of the choice: the theorems hold for any such functions. WHICH "
+              "candidate wins is compared with the binary on every generated case by running the extracted model with IEEE "
+              "doubles and a transcription of Go's amd64 math.Log (trusted, not proved; verdict choice-differs-from-model); "
+              "for the byte comparison the binary's choices are handed to the model. That the Go runtime computes the same "
+              "float64 values on every run is sampled with 10 runs per case. Includes in the training file are not modelled.")
